@@ -11,6 +11,7 @@
 #include "codec_util.hpp"
 #include "siggen.hpp"
 #include "audio_metrics_decl.h"
+#define VP_REF_SAME_ARITH 1   // in the fixed-point variant the frozen fixed-point decoder is the reference
 #include "refapi.h"
 extern "C" {
 #include "entdec.h"
